@@ -262,3 +262,25 @@ def replay(case) -> List[Violation]:
                 return [Violation(s + "|after-many-generations", m, c) for s, m, c in judge(label, cfg)]
             return [Violation(s, m, c) for s, m, c in judge(label, cfg)]
     return []
+
+
+
+# ---------------------------------------------------------------------------------------------
+# environment grid (mc/envgrid.py): the generated classes pass the catalogue in every process (warnings as errors, python -O / -OO where
+# docstrings vanish, host logging at DEBUG ...)
+
+ENV_SKIP = {"optimize2": "python -OO removes every docstring, and the catalogue demands documented components: its verdict under -OO is about the "
+                         "interpreter flag, not about the generated classes"}
+
+
+def env_cases(tier: str):
+    return [{"label": label} for label, _ in yaml_node_configs()]
+
+
+def env_observe(case):
+    from mc import envgrid
+
+    envgrid.scratch()
+    harness.load_config(gen.yaml_config(("src",)))
+    cfg = dict(yaml_node_configs())[case["label"]]
+    return {"judged": sorted({sig for sig, _, _ in judge(case["label"], cfg)})}
